@@ -46,8 +46,9 @@ type aObs struct {
 type infoObs struct {
 	Res   string `json:"res"`
 	IFlag bool   `json:"iflag"`
-	First string `json:"first"`
-	N     int    `json:"n"`
+	First  string `json:"first"`
+	N      int    `json:"n"`
+	AFlags []bool `json:"aflags"`
 }
 type preObs struct {
 	OK    bool `json:"ok"`
@@ -408,7 +409,7 @@ func mustSign(el *etree.Element, o idp.SigOpts) {
 
 // observeSSO calls the three SSO entry points on one encoded input and projects.
 func observeSSO(sp *saml2.SAMLServiceProvider, enc string) *fObs {
-	o := &fObs{Assertions: []aObs{}}
+	o := &fObs{Assertions: []aObs{}, Info: infoObs{AFlags: []bool{}}}
 	var resp *types.Response
 	func() {
 		defer func() {
@@ -459,6 +460,9 @@ func observeSSO(sp *saml2.SAMLServiceProvider, enc string) *fObs {
 			o.Info.Res = "accept"
 			o.Info.IFlag = info.ResponseSignatureValidated
 			o.Info.N = len(info.Assertions)
+			for i := range info.Assertions {
+				o.Info.AFlags = append(o.Info.AFlags, info.Assertions[i].SignatureValidated)
+			}
 			if len(info.Assertions) > 0 {
 				first := world.Identify(&info.Assertions[0])
 				// the summary must describe that same assertion
@@ -509,6 +513,9 @@ func observeSSO(sp *saml2.SAMLServiceProvider, enc string) *fObs {
 			}
 		}
 	}()
+	if o.Info.AFlags == nil {
+		o.Info.AFlags = []bool{}
+	}
 	return o
 }
 
